@@ -85,6 +85,9 @@ pub fn install_panic_hook() {
             };
             format!("{}:{}", short, l.line())
         });
+        if std::env::var_os("VCHECK_DEBUG").is_some() {
+            eprintln!("panic: {info}");
+        }
         LAST_PANIC_LOC.with(|l| *l.borrow_mut() = loc);
     }));
 }
